@@ -107,6 +107,43 @@ def run(ctx: Ctx) -> bool:
         ctx.undecided("R-C06.6", key, f_as.where, str(e))
         decided = False
 
+    # ---------------------------------------------------------------- assignment to a field BELOW a subscript:  arr[i].a = v
+    key2 = f"{f_as.qualname}#field-below-a-subscript-is-not-overwritten-unused"
+    bad2 = []
+    try:
+        for droppable in (False, True):
+            fty = Tok("field_ty", copyable=False, droppable=droppable, linear=not droppable, __ident__=1)
+            arr = Tok("arr", __class__="Variable", id="arr", ty=Tok("array_ty", copyable=False, droppable=False), defined_at=Tok("def_arr"), __ident__=1)
+            arr.attrs["root"] = arr
+            item = Tok("%idx", __class__="Variable", id="%idx", ty=Tok("int_ty", copyable=True, droppable=True), defined_at=Tok("def_idx"), __ident__=1)
+            value_var = Tok("%val", __class__="Variable", id="%val", ty=Tok("struct_ty", copyable=False, droppable=False), defined_at=Tok("def_val"), __ident__=1)
+            setitem = Tok("setitem_call", call=Tok("setitem_call_node", __class__="GlobalCall", __ident__=1), value_var=value_var, __ident__=1)
+            sub = Tok("arr[...]", __class__="SubscriptAccess", id="arr[%idx]", parent=arr, item=item, item_expr=Tok("index_expr", __class__="Constant"), ty=Tok("struct_ty"),
+                      setitem_call=setitem, getitem_call=None, root=arr, defined_at=Tok("def_arr"), __ident__=1)
+            place = Tok("arr[...].a", __class__="FieldAccess", id="arr[%idx].a", ty=fty, parent=sub, root=arr, defined_at=Tok("def_arr"), __ident__=1)
+            scope = Tok("scope", __classes__=scope_cls.mro(), vars={"arr": arr}, parent_scope=None, used_local={}, used_parent={}, __ident__=1)
+            tgt = Tok("target_node", __class__="PlaceNode", place=place, __ident__=1)
+            f2 = chk.find_method("_check_assign_targets")
+            ps2 = [a.arg for a in f2.node.posonlyargs + f2.node.args.args] if hasattr(f2.node, "posonlyargs") else [a.arg for a in f2.node.args.posonlyargs + f2.node.args.args]
+            self_tok = Tok("checker", scope=scope, __classes__=chk.mro(), func_inputs={}, func_name="f", __ident__=1)
+            self_tok.attrs["__methods__"] = {"visit": lambda r, a: None}
+            env = {ps2[0]: self_tok, ps2[1]: [tgt], **hooks, "contains_subscript": lambda node, e, env, sub=sub: sub}
+            diag.clear()
+            try:
+                out = UseKindEval(idx, LC, max_depth=8).run(f2.node.body, env)
+                rejected = out[0] == "raise"
+            except Raised:
+                rejected = True
+            if rejected == droppable:
+                bad2.append({"assignment": "arr[i].a = v", "old_field_value_droppable": droppable, "outcome": "rejected" if rejected else "accepted",
+                             "should_be": "accepted" if droppable else "rejected: the old value of the field can never have been consumed (moving out of a subscript is forbidden)"})
+        ctx.check(not bad2, "R-C06.6", key2, f_as.where, {"cases": 2, "counterexamples": bad2},
+                  "`arr[i].a = qubit()` (array of structs with a qubit field) is accepted: the qubit that was in the field is overwritten and "
+                  "silently discarded -- for a place that contains a subscript only the `__setitem__` call is looked at, not the leaves the "
+                  "assignment replaces")
+    except Unsupported as e:
+        ctx.undecided("R-C06.6", key2, f_as.where, str(e))
+
     # ---------------------------------------------------------------- read of the aggregate
     f_pn = chk.find_method("visit_PlaceNode")
     key = f"{f_pn.qualname}#AlreadyUsedError-decided-per-leaf"
